@@ -101,7 +101,7 @@ def res_of_tbl(v, p):
     return "val", common.red_matrix(np.asarray(v), p)
 
 
-def build_session(rng, sid, p, *, nfac, k, N, hermitian_flag, dens, complex_):
+def build_session(rng, sid, p, *, nfac, k, N, hermitian_flag, dens, complex_, opscale=1):
     """Build factors, multiply with the real code, request everything; return session."""
     from pymablock.series import cauchy_dot_product
 
@@ -138,7 +138,11 @@ def build_session(rng, sid, p, *, nfac, k, N, hermitian_flag, dens, complex_):
     with ses:
         series = [to_series(f, k) for f in facs]
         count0 = ses._count
-        P = cauchy_dot_product(*series, hermitian=hermitian_flag)
+        if opscale == 1:
+            P = cauchy_dot_product(*series, hermitian=hermitian_flag)
+        else:
+            # a user-supplied element product that is NOT matmul: op(x, y) = opscale * (x @ y)
+            P = cauchy_dot_product(*series, hermitian=hermitian_flag, operator=lambda x, y: opscale * (x @ y))
         # products are registered in creation order: F1.F2, (F1.F2).F3, ...
         created = [ses._ids[id_] for id_ in list(ses._ids)][count0:]
         labels = [ses.label(s) for s in series]
@@ -192,8 +196,9 @@ def build_session(rng, sid, p, *, nfac, k, N, hermitian_flag, dens, complex_):
     meta = dict(nfac=nfac, k=k, N=N, hermitian=hermitian_flag, grid=grid, dims=dims, complex=complex_, dens=dens,
                 factors=[{"name": f["name"], "tags": {",".join(map(str, kx)): (v if isinstance(v, str) else "val")
                                                       for kx, v in list(f["tbl"].items())[:12]}} for f in facs])
+    meta["opscale"] = opscale
     return dict(sid=sid, inputs=[], fp0=fp0, ev=events, chain=chain, prods=prods,
-                ords=[list(n) for n in ords]), meta
+                ords=[list(n) for n in ords], opscale=opscale), meta
 
 
 def bare_one_sum_cells(sess):
@@ -287,6 +292,13 @@ def run(pid, tier, seed, replay=None):
             if sp["sid"] % 15 == 0:
                 sp.update(nfac=2, k=3, hermitian_flag=True, forceN=3 if (sp["sid"] // 15) % 2 else 2,
                           dens=[dict(zero=0.0, one=0.0), dict(zero=0.15, one=0.15)][(sp["sid"] // 15) % 2])
+    if replay is None:
+        # stratum: a user-supplied element product (2 * matmul) with 3 and 4 factors, no `one` sentinels
+        # (op(one, X) = X by definition, so the scale would not be uniform)
+        for sp in specs:
+            if sp["sid"] % 15 == 7:
+                sp.update(nfac=3 + (sp["sid"] // 15) % 2, hermitian_flag=False, opscale=2,
+                          dens=dict(zero=0.2, one=0.0))
     for sp in specs:
         r = common.rng_for(seed, pid, "build", sp["sid"])
         N = {1: 3, 2: 2, 3: 1}[sp["k"]] if quick else {1: 4, 2: 2, 3: 2}[sp["k"]]
@@ -299,7 +311,7 @@ def run(pid, tier, seed, replay=None):
             # only a comparison of the WHOLE order tuples tells apart
             N = 2
         s, m = build_session(r, sp["sid"], p, nfac=sp["nfac"], k=sp["k"], N=N, hermitian_flag=sp["hermitian_flag"],
-                             dens=sp["dens"], complex_=sp["complex_"])
+                             dens=sp["dens"], complex_=sp["complex_"], opscale=sp.get("opscale", 1))
         sessions.append(s)
         metas[sp["sid"]] = dict(spec=sp, meta=m)
     violations = []
